@@ -1,6 +1,7 @@
 /- line-protocol handlers for C09 (block hasher, PE checksum, client fail-over, encoding choice) -/
 import Relic.Model.Merkle
 import Relic.Model.PEChecksum
+import Relic.Spec.PEChecksum
 import Relic.Model.Transport
 namespace Relic.Driver.C09
 open Relic
@@ -89,6 +90,17 @@ def handle : List String → String
       | .err e => s!"err {e}{tag}"
       | _ => "bad-op"
     | _, _, _ => "bad-op"
+  | ["fixpehex", hex] =>
+    match fromHex hex with
+    | some file =>
+      match PEChecksum.fixPE file with
+      | .ok (pos, v) =>
+        let field := pos != 88
+        let spec := if field && pos % 2 == 0 then Spec.peChecksum file pos else Spec.peChecksumPlain file
+        s!"ok {pos} {hex8 v} #spec={hex8 spec} even={if pos % 2 == 0 then 1 else 0} field={if field then 1 else 0}"
+      | .err e => s!"err {e}"
+      | _ => "bad-op"
+    | none => "bad-op"
   | ["fixpe", lfanew, total, _seed] =>
     match lfanew.toNat?, total.toNat? with
     | some l, some t =>
